@@ -25,6 +25,11 @@ pub enum Case {
     Built { kids: Vec<GNode> },
     /// parsed document: inner/outer on every element
     Parsed { input: String },
+    /// parsed with the scripting flag off (noscript has element children), same checks
+    ParsedNoScript { input: String },
+    /// constructed tree over ANY vocabulary (raw-text elements, "svg:name" / "math:name" for
+    /// foreign elements, arbitrary nesting): inner/outer and decode checks only, no re-parse
+    BuiltAny { kids: Vec<GNode> },
 }
 
 pub const ORDINARY: &[&str] = &[
@@ -109,13 +114,62 @@ fn gen_kids(s: &mut Src, depth: usize, budget: &mut usize) -> Vec<GNode> {
     out
 }
 
+const ANY_NAMES: &[&str] = &[
+    "div", "span", "script", "style", "xmp", "iframe", "noembed", "noframes", "plaintext", "noscript", "title", "textarea", "pre", "p", "b",
+    "svg:svg", "svg:text", "svg:tspan", "svg:style", "svg:script", "svg:title", "svg:desc", "svg:foreignObject", "math:math", "math:mi",
+    "math:annotation-xml", "math:mtext", "svg:xmp", "math:noscript", "template", "table", "td", "select", "option",
+];
+
+/// Trees no parser run produces (anything under anything), for the serializer's own rules.
+fn gen_any(s: &mut Src, depth: usize, budget: &mut usize) -> Vec<GNode> {
+    let n = if depth > 5 { s.below(2) } else { 1 + s.len(3) };
+    let mut out: Vec<GNode> = vec![];
+    for _ in 0..n {
+        if *budget == 0 {
+            break;
+        }
+        *budget -= 1;
+        if s.chance(110) && !matches!(out.last(), Some(GNode::Text(_))) {
+            out.push(GNode::Text(gen_string(s, 6)));
+        } else {
+            let name = s.pick(ANY_NAMES).to_string();
+            let mut attrs: Vec<(String, String)> = vec![];
+            if s.chance(60) {
+                attrs.push((s.pick(ATTR_NAMES).to_string(), gen_string(s, 5)));
+            }
+            let kids = gen_any(s, depth + 1, budget);
+            out.push(GNode::Elem { name, attrs, kids });
+        }
+    }
+    out
+}
+
 pub fn decode(s: &mut Src) -> Case {
     if s.chance(90) {
         let tc = gen_tree_case(s, false, 40);
-        return Case::Parsed { input: tc.input };
+        return if s.chance(60) { Case::ParsedNoScript { input: tc.input } } else { Case::Parsed { input: tc.input } };
+    }
+    if s.chance(70) {
+        let mut budget = 30;
+        return Case::BuiltAny { kids: gen_any(s, 0, &mut budget) };
     }
     let mut budget = 40;
-    Case::Built { kids: gen_kids(s, 0, &mut budget) }
+    let mut kids = gen_kids(s, 0, &mut budget);
+    if s.chance(12) {
+        // an element with many children (any count up to 400: limits of batching / paging code)
+        let n = s.below(400);
+        let many = (0..n)
+            .map(|k| {
+                if k % 7 == 3 {
+                    GNode::Elem { name: "i-x".into(), attrs: vec![], kids: vec![] }
+                } else {
+                    GNode::Elem { name: "span".into(), attrs: vec![], kids: vec![GNode::Text(format!("{k}"))] }
+                }
+            })
+            .collect();
+        kids.push(GNode::Elem { name: "div".into(), attrs: vec![], kids: many });
+    }
+    Case::Built { kids }
 }
 
 fn html_name(l: &str) -> QualName {
@@ -137,7 +191,12 @@ fn build(dom: &RcDom, parent: &Handle, kids: &[GNode]) {
                             value: StrTendril::from(v.as_str()),
                         })
                         .collect();
-                    let e = dom.create_element(html_name(name), a, ElementFlags::default());
+                    let qn = match name.split_once(':') {
+                        Some(("svg", l)) => QualName::new(None, Namespace::from("http://www.w3.org/2000/svg"), LocalName::from(l)),
+                        Some(("math", l)) => QualName::new(None, Namespace::from("http://www.w3.org/1998/Math/MathML"), LocalName::from(l)),
+                        _ => html_name(name),
+                    };
+                    let e = dom.create_element(qn, a, ElementFlags::default());
                     dom.append(&p, NodeOrText::AppendNode(e.clone()));
                     work.push((e, kids));
                 },
@@ -340,6 +399,24 @@ pub fn check(case: &Case, st: &mut Stats) -> Result<(), String> {
                 st.nontrivial(hash64(&s), || serde_json::to_value(case).unwrap());
             }
         },
+        Case::BuiltAny { kids } => {
+            let dom = RcDom::default();
+            let root = dom.create_element(html_name("div"), vec![], ElementFlags::default());
+            build(&dom, &root, kids);
+            inner_outer(&root, st)?;
+            let s = ser(&root, TraversalScope::ChildrenOnly(None), true)?;
+            st.label("built tree over any vocabulary: inner/outer");
+            st.nontrivial(hash64(&s), || serde_json::to_value(case).unwrap());
+        },
+        Case::ParsedNoScript { input } => {
+            let mut opts = html5ever::ParseOpts::default();
+            opts.tree_builder.scripting_enabled = false;
+            let dom = html5ever::parse_document(RcDom::default(), opts).one(StrTendril::from(input.as_str()));
+            inner_outer(&dom.document, st)?;
+            let s = ser(&dom.document, TraversalScope::ChildrenOnly(None), false)?;
+            st.label("parsed tree (scripting off): inner/outer on every element");
+            st.nontrivial(hash64(&s), || serde_json::to_value(case).unwrap());
+        },
         Case::Parsed { input } => {
             let dom = html5ever::parse_document(RcDom::default(), Default::default()).one(StrTendril::from(input.as_str()));
             inner_outer(&dom.document, st)?;
@@ -353,7 +430,7 @@ pub fn check(case: &Case, st: &mut Stats) -> Result<(), String> {
 
 pub fn run(ctx: &Ctx) -> Report {
     let mut rep = Report::new(
-        "(a) Constructed trees: RcDom trees built directly (so arbitrary strings survive un-normalised) over the ordinary vocabulary (div span section article aside header footer main nav ul ol dl figure figcaption blockquote details summary fieldset label output abbr cite q sub sup var time data mark kbd samp dfn bdi bdo ins del and custom names; no void, raw-text, RCDATA, implied-end-tag, formatting, table, select, heading, pre/listing/textarea elements), attribute names from a safe pool, attribute values and text arbitrary Unicode minus CR and NUL (biased to & < > \" ' U+00A0, every 2-byte character with lead byte 0xC2/0xC3, lone & before entity names, </ <!-- ]]>, attribute-breaking snippets), text non-empty and never adjacent to text: serialize(ChildrenOnly(None)) then parse_fragment(context div, discard_bom=false) must reproduce the tree exactly. (b) Inner/outer on every element of those trees and of trees parsed from grammar-generated HTML (raw-text elements, foreign style/script/title, templates, noscript), for scripting_enabled in {true,false}: serialize(IncludeNode) must equal start-tag + serialize(ChildrenOnly(Some(name))) + end-tag for every non-void element; every attribute value and every text-only element's text must decode back to the original by inverting the five entities (&amp; &lt; &gt; &quot; &nbsp;) with no raw \"/</& left in the run, and text must be verbatim iff the parent is an HTML-namespace raw-text element (noscript only with scripting). Non-trivial: a built tree with a string that needs escaping or a 0xC2 byte, or any parsed tree; distinct by serialization hash.",
+        "(a) Constructed trees: RcDom trees built directly (so arbitrary strings survive un-normalised) over the ordinary vocabulary (div span section article aside header footer main nav ul ol dl figure figcaption blockquote details summary fieldset label output abbr cite q sub sup var time data mark kbd samp dfn bdi bdo ins del and custom names; no void, raw-text, RCDATA, implied-end-tag, formatting, table, select, heading, pre/listing/textarea elements), attribute names from a safe pool, attribute values and text arbitrary Unicode minus CR and NUL (biased to & < > \" ' U+00A0, every 2-byte character with lead byte 0xC2/0xC3, lone & before entity names, </ <!-- ]]>, attribute-breaking snippets), text non-empty and never adjacent to text: serialize(ChildrenOnly(None)) then parse_fragment(context div, discard_bom=false) must reproduce the tree exactly. (b) Inner/outer on every element of those trees and of trees parsed from grammar-generated HTML (raw-text elements, foreign style/script/title, templates, noscript), for scripting_enabled in {true,false}: serialize(IncludeNode) must equal start-tag + serialize(ChildrenOnly(Some(name))) + end-tag for every non-void element; every attribute value and every text-only element's text must decode back to the original by inverting the five entities (&amp; &lt; &gt; &quot; &nbsp;) with no raw \"/</& left in the run, and text must be verbatim iff the parent is an HTML-namespace raw-text element (noscript only with scripting). (c) the same inner/outer and decode clauses on trees parsed with the scripting flag off (noscript has element children) and on constructed trees over ANY vocabulary - raw-text elements, foreign elements and templates nested in each other in ways no parser run produces - and the round trip on elements with up to 400 children. Non-trivial: a built tree with a string that needs escaping or a 0xC2 byte, or any parsed tree; distinct by serialization hash.",
     );
     rep.assume("'arbitrary attribute values and arbitrary text free of CR and NUL' is read as: both are free of CR and NUL (the HTML syntax cannot represent a CR in an attribute value: the input stream normalises it)");
     rep.assume("void elements are exempt from inner==outer (they have no end tag)");
